@@ -127,7 +127,7 @@ def rand_token(rng, kinds):
 
 
 def random_case(rng, tier):
-    r = rng.choice([1, 1, 2, 3, 5, 8, 20, 40]) if rng.random() < 0.7 else rng.randint(1, 40)
+    r = rng.choice([1, 1, 2, 3, 5, 8, 20, 21, 22, 40]) if rng.random() < 0.7 else rng.randint(1, 40)
     c = rng.choice([1, 1, 2, 3, 4, 7, 12])
     kinds = rng.sample(["int", "fixed", "exp", "dotfirst", "dotlast", "null", "zero"], rng.randint(1, 4))
     if rng.random() < 0.3:
